@@ -177,7 +177,12 @@ class mapper(object):
             res = mem(k.a, k.size, mods=list(items), endian=k.endian)
         else:
             res = self._Mem_read(k.a, k.length, k.endian)
-            res.sf = k.sf
+            if res.sf != k.sf:
+                # the location's view of signedness applies to the value read,
+                # not to the expression stored in memory (which may be shared):
+                from copy import copy
+                res = copy(res)
+                res.sf = k.sf
         return res
 
     def aliasing(self, k):
